@@ -239,8 +239,49 @@ class Expander:
         return binding
 
     # -- one function ------------------------------------------------------------------------------------------------------------
-    def expand_function(self, fn: ast.FunctionDef, mi, cls_qual, qual, stack=()):
+    @staticmethod
+    def normalize_star_args(fn: ast.FunctionDef) -> bool:
+        """`t = (a, b, c); f(x, *t)` -> `f(x, a, b, c)` when the pack and the call sit in the same statement list and neither t nor
+        its element names are stored to in between (so the elements have the packed values at the call)."""
         changed = False
+
+        def stored(st):
+            return {n.id for n in ast.walk(st) if isinstance(n, ast.Name) and isinstance(n.ctx, (ast.Store, ast.Del))}
+
+        def block(stmts):
+            nonlocal changed
+            for i, st in enumerate(stmts):
+                for f in ("body", "orelse", "finalbody"):
+                    v = getattr(st, f, None)
+                    if isinstance(v, list) and v and isinstance(v[0], ast.stmt):
+                        block(v)
+                for h in getattr(st, "handlers", []) or []:
+                    block(h.body)
+                if isinstance(st, ast.Assign) and len(st.targets) == 1 and isinstance(st.targets[0], ast.Name) and isinstance(st.value, (ast.Tuple, ast.List)) \
+                        and all(isinstance(e, (ast.Name, ast.Constant)) for e in st.value.elts):
+                    t = st.targets[0].id
+                    elems = {e.id for e in st.value.elts if isinstance(e, ast.Name)}
+                    for later in stmts[i + 1:]:
+                        # only the statement's own expressions (not nested blocks) are rewritten; any store to t / elements ends the window
+                        own = [x for f2, x in ast.iter_fields(later) if f2 not in ("body", "orelse", "finalbody", "handlers")]
+                        for root in own:
+                            for c in (ast.walk(root) if isinstance(root, ast.AST) else [y for r in root if isinstance(r, ast.AST) for y in ast.walk(r)] if isinstance(root, list) else []):
+                                if isinstance(c, ast.Call) and any(isinstance(a, ast.Starred) and isinstance(a.value, ast.Name) and a.value.id == t for a in c.args):
+                                    new_args = []
+                                    for a in c.args:
+                                        if isinstance(a, ast.Starred) and isinstance(a.value, ast.Name) and a.value.id == t:
+                                            new_args += [copy.deepcopy(e) for e in st.value.elts]
+                                            changed = True
+                                        else:
+                                            new_args.append(a)
+                                    c.args = new_args
+                        if stored(later) & (elems | {t}) or isinstance(later, (ast.For, ast.While, ast.If, ast.With, ast.Try)):
+                            break
+        block(fn.body)
+        return changed
+
+    def expand_function(self, fn: ast.FunctionDef, mi, cls_qual, qual, stack=()):
+        changed = self.normalize_star_args(fn)
         fn.body, ch = self._block(fn.body, mi, cls_qual, qual, stack + (qual,), 0)
         changed |= ch
         if changed:
